@@ -1,4 +1,4 @@
-\* implementation as it is now: TLC must exhibit a rename that is not the abstract Rename (encrypted file keeps the old key)
+\* implementation at b13f4b7: TLC must exhibit a rename that is not the abstract Rename (encrypted file keeps the old key; fixed by 8390629)
 CONSTANTS
   H = 4
   UNames <- MCNames
@@ -14,6 +14,6 @@ CONSTANTS
   Ver = 1
   MaxCalls = 4
   MCToks = {"t1"}
-SPECIFICATION CodeNowSpec
+SPECIFICATION Code1Spec
 PROPERTY OpRefines
 CHECK_DEADLOCK FALSE
